@@ -13,8 +13,43 @@ _md = MarkdownIt('commonmark')
 
 def _s(chars): return ''.join(chars)
 
-def para_text(lines):
+def _esc(s):
+    return html.escape(s, quote=False).replace('"', '&quot;')        # the apostrophe is not escaped by CommonMark renderers
+
+
+def norm_label(s):
+    return ' '.join(s.split()).casefold()
+
+
+def collect_defs(node, acc=None):
+    """link reference definitions of a model tree in document order; the first definition of a label wins"""
+    acc = {} if acc is None else acc
+    d = node.get('d')
+    if isinstance(d, dict):
+        for df in d.get('defs', []) or []:
+            acc.setdefault(norm_label(_s(df['label'])), (_s(df['dest']), _s(df['title'])))
+    for k in node.get('kids', []):
+        collect_defs(k, acc)
+    return acc
+
+
+_REF = re.compile(r'\[([^\[\]]+)\](?:\[([^\[\]]*)\])?')
+
+
+def para_text(lines, defs=None):
     # lines: list of str (already left-stripped by the block phase); inline phase with plain text
+    # (+ reference links [label], [label][], [text][label] when the document has definitions)
+    links = []
+    if defs:
+        def sub(m):
+            text, second = m.group(1), m.group(2)
+            label = text if not second else second
+            hit = defs.get(norm_label(label))
+            if hit is None:
+                return m.group(0)
+            links.append((text, hit))
+            return '\x01%d\x02' % (len(links) - 1)
+        lines = _REF.sub(sub, '\n'.join(lines)).split('\n')
     out = []
     for i, ln in enumerate(lines):
         ln = ln.lstrip(' \t')
@@ -28,30 +63,35 @@ def para_text(lines):
                 out.append(ln[:m.start()] + '<br />')
             else:
                 out.append(ln.rstrip(' '))
-    esc = html.escape('\n'.join(out).replace('<br />', '\x00'), quote=True).replace('\x00', '<br />')
+    esc = _esc('\n'.join(out).replace('<br />', '\x00')).replace('\x00', '<br />')
     # inline raw HTML (complete simple tags and complete comments) passes through unescaped
     esc = re.sub(r'&lt;(/?[a-zA-Z][a-zA-Z0-9]*)&gt;', r'<\1>', esc)
     esc = re.sub(r'&lt;!--(.*?)--&gt;', r'<!--\1-->', esc, flags=re.S)
+    for i, (text, (dest, title)) in enumerate(links):
+        esc = esc.replace('\x01%d\x02' % i, '<a href="%s"%s>%s</a>' % (_esc(dest).replace('[', '%5B').replace(']', '%5D'), ' title="%s"' % _esc(title) if title else '', _esc(text)))
     return esc
 
-def from_model(node, tight=False):
+def from_model(node, tight=False, defs=None):
     t = node['t']
     if t == 'doc':
-        return [x for k in node['kids'] for x in from_model(k)]
+        defs = collect_defs(node)
+        return [x for k in node['kids'] for x in from_model(k, False, defs)]
+    if t == 'refs':
+        return []
     if t == 'bq':
-        return [('bq', [x for k in node['kids'] for x in from_model(k)])]
+        return [('bq', [x for k in node['kids'] for x in from_model(k, False, defs)])]
     if t == 'list':
         d = node['d']
         tg = d['tight']
-        items = [('li', [x for k in it['kids'] for x in from_model(k, tg)]) for it in node['kids']]
+        items = [('li', [x for k in it['kids'] for x in from_model(k, tg, defs)]) for it in node['kids']]
         if d['ord']:
             return [('ol', int(_s(d['start'])), items)]
         return [('ul', items)]
     if t == 'para':
-        txt = para_text([_s(l) for l in node['txt']])
+        txt = para_text([_s(l) for l in node['txt']], defs)
         return [('t' if tight else 'p', txt)]
     if t == 'heading':
-        txt = para_text([_s(l) for l in node['txt']])
+        txt = para_text([_s(l) for l in node['txt']], defs)
         return [('h', node['d']['level'], txt.strip(' \t'))]
     if t == 'hr':
         return [('hr',)]
